@@ -104,7 +104,7 @@ G_POOL = [(RO.c03_dormant, None), (RO.c10_fetch, None), (RO.c10_thread, None), (
 # of the seeded changes were reported by a neighbouring property's check only, until the target's check ran the same rules).
 G_CORE = [(RP.tok_exec, None), (RP.tok_leak, None), (RP.tok_resched, None), (RP.tok_pending, None), (RP.tok_requeue, None), (RP.pa_rules, None),
           (RP.park_wake, None), (RP.tr_dead, None), (RP.tr_roles, None), (RP.tr_immediate, None), (RP.tr_sibling, None), (RP.tr_defer, None), (RP.tr_base, None),
-          (RQ.qd_queue, None), (RQ.qd_single_store, None), (RQ.qd_schedule, None), (RQ.qd_wake_blocked, None), (RQ.qd_run, None), (RQ.qd_once, None),
+          (RQ.qd_queue, None), (RQ.qd_single_store, None), (RQ.qd_job_lifetime, None), (RQ.qd_schedule, None), (RQ.qd_wake_blocked, None), (RQ.qd_run, None), (RQ.qd_once, None),
           (RG.tok_guard, None), (RG.aq_drop, None), (RG.c15_reap, None), (RG.c15_refuse, None),
           (RL.try_rule, None), (RL.lo, None), (RL.bl, None),
           (RO.c03_dormant, None), (RO.c10_fetch, None), (RO.c10_thread, None), (RO.c10_spawn, None), (RO.c02_append, None), (RO.c06_drain, None),
@@ -129,9 +129,9 @@ prop('C01', COMMON +
 prop('C02', COMMON +
      'Decided: every scheduling call appends its job under the queue lock before it returns, in its own body (ORD-C02-append); the job list is only appended at the back, taken from the front, '
      'and a suspended job is put back at the front (QD-queue, TOK-requeue); a closure runs ahead of the list only when the queue was claimed Idle and seen empty in the same critical section (TR-immediate, TR-sibling).',
-     ['append under the lock before the call returns (ORD-C02-append)', 'FIFO discipline (QD-queue)', 'immediate execution only when Idle and empty (TR-immediate, TR-sibling)', 'suspended job returns to the front (TOK-requeue)', 'a single runner per queue (PA-excl, TOK-exec): a second runner would start later operations early'],
+     ['append under the lock before the call returns (ORD-C02-append)', 'FIFO discipline (QD-queue)', 'immediate execution only when Idle and empty (TR-immediate, TR-sibling)', 'suspended job returns to the front (TOK-requeue)', 'a single runner per queue (PA-excl, TOK-exec): a second runner would start later operations early', 'a future_sync operation occupies its slot from the announcement to the completion hand-shake: the queue does not move on to the next operation while it runs (ORD-C08)'],
      ['the real-time order of two calls on different threads (it is the linearisation order of the core mutex)', 'every runner path preserving order is derived from QD + TOK-requeue'],
-     G_ORDER)
+     G_ORDER + [(RO.c08, None), (RQ.qd_job_lifetime, None)])
 
 prop('C03', COMMON +
      'Decided: an acquired token is always released or handed on (TOK-leak, globally PA-stuck); every owner release to Idle is followed by reschedule_queue or made under the queue-empty test (TOK-resched); '
